@@ -137,14 +137,12 @@ class UTPM(Ring, RawAlgorithmsMixIn):
         return self.__class__(tmp)
 
     def __setitem__(self, sl, rhs):
+        if not isinstance(sl, tuple):
+            sl = (sl,)
         if isinstance(rhs, UTPM):
-            if type(sl) == int or sl == Ellipsis or isinstance(sl, slice):
-                sl = (sl,)
             x_data, y_data = UTPM._broadcast_arrays(self.data.__getitem__((slice(None),slice(None)) + sl), rhs.data)
             return x_data.__setitem__(Ellipsis, y_data)
         else:
-            if type(sl) == int or sl == Ellipsis or isinstance(sl, slice):
-                sl = (sl,)
             self.data.__setitem__((slice(1,None),slice(None)) + sl, 0)
             return self.data.__setitem__((0,slice(None)) + sl, rhs)
 
